@@ -147,9 +147,13 @@ def run_case(ctx, name, params):
 
         def f(x, as_numpy=False):
             """calls the real evaluate; returns the scalar or None after recording a totality violation"""
-            vec = [np.float64(v) for v in x] if as_numpy else [float(v) for v in x]
+            if as_numpy is True:
+                as_numpy = np.float64
+            vec = [as_numpy(v) for v in x] if as_numpy else [float(v) for v in x]
             ctx.count("evaluations_numpy" if as_numpy else "evaluations_python")
-            wit = {"function": fname, "dimension": n, "x": [float(v) for v in x], "numpy": as_numpy}
+            if as_numpy and as_numpy is not np.float64:
+                ctx.count("evaluations_numpy_" + as_numpy.__name__)
+            wit = {"function": fname, "dimension": n, "x": [float(v) for v in x], "numpy": getattr(as_numpy, "__name__", as_numpy)}
             try:
                 ind = state.get("ind")
                 if ind is not None and len(ind.vector) == len(vec) and r.random() < 0.3:
@@ -199,13 +203,15 @@ def run_case(ctx, name, params):
                 s = 10.0 ** r.randint(-8, -1)
                 pts.append([min(max(c + r.uniform(-s, s) * (ub - lb), lb), ub) for c, (lb, ub) in zip(coords, box)])
         best = None
-        for q in pts:
-            for as_np in (False, True):
+        # numpy floats of every width the values fit into (float32 holds ~3e38: the steep functions exceed that in high dimensions)
+        widths = [np.float64, np.float64, np.longdouble] + ([np.float32] if n <= 10 else [])
+        for qi, q in enumerate(pts):
+            for as_np in (False, widths[qi % len(widths)]):
                 v = f(q, as_np)
                 if state["bad"]:
                     break
-                ctx.nontrivial((fname, n, tuple(q), as_np))
-                if best is None or sign * v < sign * best[0]:
+                ctx.nontrivial((fname, n, tuple(q), getattr(as_np, "__name__", as_np)))
+                if as_np is False and (best is None or sign * v < sign * best[0]):     # the bound clause is judged on exact box points
                     best = (v, q)
             if state["bad"]:
                 break
@@ -216,7 +222,7 @@ def run_case(ctx, name, params):
         if opt is not None and coords is not None and len(coords) == n:
             draws = 5 if fname == "XinSheYang3" else 1
             for _ in range(draws):
-                for as_np in (False, True):
+                for as_np in [False, np.float64, np.longdouble] + ([np.float32] if n <= 10 else []):
                     v = f(list(coords), as_np)
                     ctx.count("optimum_value_checks")
                     if v is not None and abs(v - opt) > TOL:
